@@ -374,6 +374,25 @@ pub fn o_tree_suffix(prop: &str, ex: &Exec, with_remount: bool) -> V {
             Some(Err(e)) => push(&mut v, format!("{prop}/decode-after-unmount/failed"), e.clone()),
             None => {}
         }
+        // attributes: what the session listed == what the remount lists == what the decoder finds
+        if let (Some(Ok(a)), Some(Ok(b)), Some(Ok(d))) = (&sx.lib_tree, &sx.remount_tree, &sx.final_decoded) {
+            let flat = d.flat();
+            for (p, n) in a {
+                if let Some(m) = b.get(p) {
+                    if m.attr != n.attr {
+                        push(&mut v, format!("{prop}/remount-listing/attributes-differ"), format!("{p}: {:#x} in the session, {:#x} after remount", n.attr, m.attr));
+                    }
+                }
+                if let Some(m) = flat.get(p) {
+                    if m.attr & 0x3F != n.attr {
+                        push(&mut v, format!("{prop}/decode-after-unmount/attributes-differ"), format!("{p}: {:#x} in the session, {:#x} on disk", n.attr, m.attr));
+                    }
+                    if !n.is_dir && m.short != n.short {
+                        push(&mut v, format!("{prop}/decode-after-unmount/short-name-differs"), format!("{p}: {:?} in the session, {:?} on disk", n.short, m.short));
+                    }
+                }
+            }
+        }
         match &sx.remount_tree {
             Some(Ok(t)) => cmp_libtree(&format!("{prop}/remount-listing"), &ex.model, t, &mut v),
             Some(Err(e)) => push(&mut v, format!("{prop}/remount-listing/failed"), e.clone()),
